@@ -467,6 +467,104 @@ pub(crate) fn get_shard<H: HashSer>(
     .transpose()
 }
 
+/// Returns `tree` without the cached roots (parent annotations, and subtrees that have been pruned
+/// down to their root) of every subtree that contains a position greater than `position`.
+///
+/// Pre-condition: `addr` must be the address of `tree`.
+fn without_roots_beyond<H: Clone>(
+    addr: Address,
+    tree: &PrunableTree<H>,
+    position: Position,
+) -> PrunableTree<H> {
+    if addr.max_position() <= position {
+        return tree.clone();
+    }
+    match (&**tree, addr.children()) {
+        (shardtree::Node::Parent { left, right, .. }, Some((l_addr, r_addr))) => {
+            let left = without_roots_beyond(l_addr, left, position);
+            let right = without_roots_beyond(r_addr, right, position);
+            if left.is_nil() && right.is_nil() {
+                shardtree::Tree::empty()
+            } else {
+                shardtree::Tree::parent(None, left, right)
+            }
+        }
+        // A leaf above level 0 stands for a subtree that has been pruned down to its root;
+        // here that subtree contains positions that are no longer part of the tree.
+        (shardtree::Node::Leaf { .. }, Some(_)) => shardtree::Tree::empty(),
+        _ => tree.clone(),
+    }
+}
+
+/// Discards the subtree roots recorded (by [`put_shard_roots`]) for subtrees that were completed
+/// above `truncation_height`.
+///
+/// A subtree root is a fact about the chain up to the block that completed the subtree. When the
+/// wallet is rewound below that block, the chain may continue differently: the subtree may then
+/// be completed by other note commitments, in another block, or not at all. A root retained
+/// from the abandoned branch would be trusted by root and witness computations, and it would
+/// make the insertion of the correct root conflict. The roots of subtrees completed at or below
+/// the truncation height are unaffected.
+pub(crate) fn discard_subtree_roots_above<H: HashSer + Clone, const DEPTH: u8, const SHARD_HEIGHT: u8>(
+    conn: &rusqlite::Transaction<'_>,
+    table_prefix: &'static str,
+    truncation_height: BlockHeight,
+) -> Result<(), Error> {
+    let shard_indices = {
+        let mut stmt = conn
+            .prepare(&format!(
+                "SELECT shard_index FROM {table_prefix}_tree_shards
+                 WHERE subtree_end_height > :truncation_height
+                 ORDER BY shard_index"
+            ))
+            .map_err(Error::Query)?;
+        stmt.query_map(
+            named_params![":truncation_height": u32::from(truncation_height)],
+            |row| row.get::<_, u64>(0),
+        )
+        .map_err(Error::Query)?
+        .collect::<Result<Vec<_>, _>>()
+        .map_err(Error::Query)?
+    };
+    let Some(first_index) = shard_indices.first().copied() else {
+        return Ok(());
+    };
+
+    for shard_index in shard_indices {
+        let shard_addr = Address::from_parts(Level::from(SHARD_HEIGHT), shard_index);
+        if let Some(shard) = get_shard::<H>(conn, table_prefix, shard_addr)? {
+            // A shard that consists of nothing but its root holds no other data.
+            let root = match &**shard.root() {
+                shardtree::Node::Leaf { .. } => shardtree::Tree::empty(),
+                _ => shard.root().clone().reannotate_root(None),
+            };
+            if let Ok(cleared) = LocatedPrunableTree::from_parts(shard_addr, root) {
+                put_shard(conn, table_prefix, cleared)?;
+            }
+        }
+        conn.execute(
+            &format!(
+                "UPDATE {table_prefix}_tree_shards
+                 SET subtree_end_height = NULL, root_hash = NULL
+                 WHERE shard_index = :shard_index"
+            ),
+            named_params![":shard_index": shard_index],
+        )
+        .map_err(Error::Query)?;
+    }
+
+    let cap = get_cap::<H>(conn, table_prefix)?;
+    let cleared_cap = match (first_index << SHARD_HEIGHT).checked_sub(1) {
+        Some(last_retained) => without_roots_beyond(
+            Address::from_parts(Level::from(DEPTH), 0),
+            &cap,
+            Position::from(last_retained),
+        ),
+        None => shardtree::Tree::empty(),
+    };
+    put_cap(conn, table_prefix, cleared_cap)
+}
+
 /// Truncates `tree` to the checkpoint with the given identifier, as
 /// [`ShardTree::truncate_to_checkpoint`] does, and then discards every cached subtree root whose
 /// subtree extends beyond the checkpoint's position.
@@ -487,32 +585,6 @@ where
     S: ShardStore<CheckpointId = BlockHeight>,
     S::H: Hashable + Clone + PartialEq,
 {
-    /// Pre-condition: `addr` must be the address of `tree`.
-    fn without_roots_beyond<H: Clone>(
-        addr: Address,
-        tree: &PrunableTree<H>,
-        position: Position,
-    ) -> PrunableTree<H> {
-        if addr.max_position() <= position {
-            return tree.clone();
-        }
-        match (&**tree, addr.children()) {
-            (shardtree::Node::Parent { left, right, .. }, Some((l_addr, r_addr))) => {
-                let left = without_roots_beyond(l_addr, left, position);
-                let right = without_roots_beyond(r_addr, right, position);
-                if left.is_nil() && right.is_nil() {
-                    shardtree::Tree::empty()
-                } else {
-                    shardtree::Tree::parent(None, left, right)
-                }
-            }
-            // A leaf above level 0 stands for a subtree that has been pruned down to its root;
-            // here that subtree contains positions that are no longer part of the tree.
-            (shardtree::Node::Leaf { .. }, Some(_)) => shardtree::Tree::empty(),
-            _ => tree.clone(),
-        }
-    }
-
     let checkpoint = tree
         .store()
         .get_checkpoint(checkpoint_id)
